@@ -351,4 +351,4 @@ impl<F: std::io::Write> std::io::Write for Counter<F> {
 // verification hook: inert unless built by `cargo kani` (cfg(kani)); see /verif/DESIGN.md
 #[cfg(kani)]
 #[path = "/verif/harness/lib.rs"]
-mod verif_k;
+pub(crate) mod verif_k;
